@@ -405,6 +405,10 @@ fn fuzz_case(out: &mut Out, header: &str, seed: u64, n: u64) {
 
 pub fn run_case(out: &mut Out, header: &str) {
     let a: Vec<&str> = header.split(' ').collect();
+    if a.get(2) == Some(&"codec") || a.get(2) == Some(&"codecw") {
+        crate::c06codec::run_case(out, header);
+        return;
+    }
     if a.get(2) == Some(&"fuzz") {
         let seed = a.get(3).and_then(|x| x.parse().ok()).unwrap_or(0);
         let n = a.get(4).and_then(|x| x.parse().ok()).unwrap_or(100);
@@ -526,6 +530,7 @@ pub fn gen(tier: Tier, seed: u64) -> Vec<String> {
     for _ in 0..(if tier == Tier::Thorough { 3000 } else { 250 }) {
         v.push(format!("c06 reset vpp {}", rng.next() % 1_000_000_007));
     }
+    v.extend(crate::c06codec::gen(tier, &mut rng));
     v
 }
 
